@@ -417,12 +417,6 @@ def run_model(ctx: C.Ctx) -> None:
                 ctx.disagree(op, inp, i_out, m_out)
             continue
         if i_out != m_out:
-            if op == "resolve_all" and i_out.startswith("V ") and m_out.startswith("V "):
-                # resolve_all rewrites shared dictionaries in place, so on graphs with cycles a second visit of the
-                # same object sees the already cut-off copy; the (pure) model is compared at the level of the
-                # outcome class there (value vs. which error), which is what C13 is about
-                ctx.branch("model:resolve_all:value-differs-by-inplace-rewrite")
-                continue
             ctx.disagree(op, inp, i_out, m_out)
 
 
